@@ -78,7 +78,24 @@ def same(kind, val, want):
     return False
 
 
+HELPER_USERS = {
+    # a failed obligation of a helper is searched through the public function that uses it
+    'checked_floordiv_i32': [('try_floordiv', 'Int', 'Int'), ('try_floordiv', 'Int', 'Nat'), ('try_floordiv', 'Nat', 'Int')],
+    'checked_floormod_i32': [('try_mod', 'Int', 'Int'), ('try_mod', 'Int', 'Nat'), ('try_mod', 'Nat', 'Int')],
+    'From<i32>::from': [('try_mul', 'Int', 'Int'), ('try_add', 'Int', 'Nat')],
+}
+
+
 def find(run, failure):
+    key = failure["key"]
+    for helper, users in HELPER_USERS.items():
+        if key.startswith(helper + '|'):
+            for (op, ca, cb) in users:
+                g = find(run, {"key": "%s[%s,%s]" % (op, ca, cb)})
+                if g.get("found"):
+                    g["how"] += " (helper %s exercised through ValueObj::%s)" % (helper, op)
+                    return g
+            return {"found": False, "note": "no disagreement through the public users of " + helper}
     m = re.match(r'(\w+)\[(\w+),(\w+)\]', failure["key"])
     if not m:
         return {"found": False, "note": "obligation is not a class copy of a try_* function"}
